@@ -110,7 +110,8 @@ def evaluate(ctx, part, sessions, contents, refs, do_minimize=True):
         for name, (hits, *_rest) in r['memo'].items():
             memo_hits[name] = memo_hits.get(name, 0) + hits
         found = [(i, 'impure', why) for i, why in S.impure_steps(s, r, refs)]
-        found += [(i, c, None) for i, c in cs if c in PROPERTY_CODES]
+        unknown = {i for i, _c, why in found if 'no reference' in why}   # reported once, as impure
+        found += [(i, c, None) for i, c in cs if c in PROPERTY_CODES and not (c == 'refine' and i in unknown)]
         seen = set()
         for i, code, why in sorted(found, key=lambda x: x[0]):
             key = S.violation_key(s, r, i, code)
